@@ -176,7 +176,9 @@ func (r *subRegistry) Referrers(ctx context.Context, repo string, digest ociregi
 // they refer to the prefixed names rather than the originals.
 func (r *subRegistry) mapScopes(ctx context.Context) context.Context {
 	scope := ociauth.ScopeFromContext(ctx)
-	if scope.IsEmpty() {
+	if scope.IsEmpty() || scope.IsUnlimited() {
+		// Nothing to rewrite (an unlimited scope has no
+		// individual members and has no defined length).
 		return ctx
 	}
 	// TODO we could potentially provide a Scope constructor
